@@ -236,6 +236,28 @@ pub fn c17(args: &Args) {
             out.emit(babai_event(&f, &g, &cf, &cg, "many-ties"));
         }
     }
+    // quotients that are ZERO DIVISORS modulo the 30-bit prime of the multi-modular version (p = 9343^2 + 31408^2, X^(n/2) is a square
+    // root of -1): k = a + b X^(n/2) has zero NTT values although it is not zero (and k with a single zero NTT value in general)
+    for &n in &[2usize, 8, 64, 512, 1024] {
+        if !thorough && (n == 8 || n == 512) {
+            continue;
+        }
+        let f = small_vec(&mut rng, n, 3.0).iter().map(|x| x + 1).collect::<Vec<_>>();
+        let g = small_vec(&mut rng, n, 3.0);
+        let f0 = small_vec(&mut rng, n, 4.0);
+        let g0 = small_vec(&mut rng, n, 4.0);
+        for (a, b) in [(9343i64, 31408i64), (31408, -9343), (-9343, 31408)] {
+            let mut k = vec![0i64; n];
+            k[0] = a;
+            k[n / 2] += b;
+            let (kf, kg) = (negacyclic_mul(&k, &f), negacyclic_mul(&k, &g));
+            let cf: Vec<i64> = (0..n).map(|i| f0[i] + kf[i]).collect();
+            let cg: Vec<i64> = (0..n).map(|i| g0[i] + kg[i]).collect();
+            if cf.iter().chain(cg.iter()).all(|x| x.abs() <= lim) {
+                out.emit(babai_event(&f, &g, &cf, &cg, "zero-divisor-quotient"));
+            }
+        }
+    }
     // corners: all-zero (F,G) (defect D7 before fix 75957a9); unit f; sparse
     for &n in &[2usize, 4, 64] {
         let f = small_vec(&mut rng, n, 5.0).iter().map(|x| x + 1).collect::<Vec<_>>();
